@@ -732,7 +732,7 @@ func c11EncodedLen(c *Ctx) {
 	for _, cfg := range []struct{ bin, sup bool }{{true, true}, {true, false}, {false, true}, {false, false}} {
 		construct := fmt.Sprintf("eioparser.Packet/IsBinary=%v,supportsBinary=%v", cfg.bin, cfg.sup)
 		// EncodedLen
-		envL := &constEnv{boolT: map[string]bool{el.Params[1].Name(): cfg.sup}}
+		envL := &constEnv{boolT: map[string]bool{vname(el.Params[1]): cfg.sup}}
 		for _, t := range isBinTerm(el) {
 			envL.boolT[t] = cfg.bin
 		}
@@ -748,7 +748,7 @@ func c11EncodedLen(c *Ctx) {
 		}
 		announced := linOf(resolvePhi(ret.Results[0], lpaths[0].PhiSrc))
 		// Encode
-		envE := &constEnv{boolT: map[string]bool{enc.Params[2].Name(): cfg.sup}}
+		envE := &constEnv{boolT: map[string]bool{vname(enc.Params[2]): cfg.sup}}
 		for _, t := range isBinTerm(enc) {
 			envE.boolT[t] = cfg.bin
 		}
@@ -836,7 +836,7 @@ func c11EncodedLen(c *Ctx) {
 	}
 	shapeOf := func(fn *ssa.Function, callee string, sepPred func(thenBlock *ssa.BasicBlock) (bool, string)) loopShape {
 		sh := loopShape{fn: fn}
-		pname := fn.Params[len(fn.Params)-1].Name()
+		pname := vname(fn.Params[len(fn.Params)-1])
 		for _, cs := range CallsTo(Calls(fn), callee) {
 			args := cs.Common().Args
 			sh.sup = Term(args[len(args)-1])
